@@ -226,7 +226,7 @@ def _case(st):
 @core.safe
 def worker(arg):
     block, entry, sample_mod, paired = arg
-    if sample_mod > 1 and hash(block) % sample_mod:
+    if not core.sampled(block, sample_mod):
         return None
     st = tlaval.parse_state_block(block)
     if st["ph"] != 2:
